@@ -1,5 +1,7 @@
 import P2sh.Driver.Util
 import P2sh.Driver.Enc
+import P2sh.Driver.OpsDrv
+import P2sh.Driver.HMapDrv
 open P2sh.Driver
 
 def dispatch (line : String) : String :=
@@ -8,6 +10,10 @@ def dispatch (line : String) : String :=
   | op :: args =>
     match op with
     | "enc" => Enc.run args
+    | "op" => OpsDrv.runOp args
+    | "un" => OpsDrv.runUn args
+    | "eqhash" => OpsDrv.runEqHash args
+    | "hmap" => HMapDrv.run args
     | _ => s!"bad-op {op}"
 
 partial def loop (h : IO.FS.Stream) (out : IO.FS.Stream) : IO Unit := do
